@@ -28,25 +28,33 @@ const qFactorWeightingKey = "q"
 // e.g. text/html,application/xhtml+xml,application/xml;q=0.9,image/webp,image/apng,*/*;q=0.8,application/signed-exchange;v=b3
 func sortedMimes(accept string) (sorted []mime) {
 	for _, each := range strings.Split(accept, ",") {
-		typeAndQuality := strings.Split(strings.Trim(each, " "), ";")
-		if len(typeAndQuality) == 1 {
-			sorted = insertMime(sorted, mime{typeAndQuality[0], 1.0})
-		} else {
-			// take factor
-			qAndWeight := strings.Split(typeAndQuality[1], "=")
-			if len(qAndWeight) == 2 && strings.Trim(qAndWeight[0], " ") == qFactorWeightingKey {
-				f, err := strconv.ParseFloat(qAndWeight[1], 64)
+		typeAndQuality := strings.Split(each, ";")
+		media := trimOWS(typeAndQuality[0])
+		quality, valid := 1.0, true
+		// the quality is the value of the q parameter, wherever it stands among the parameters
+		for _, param := range typeAndQuality[1:] {
+			qAndWeight := strings.Split(param, "=")
+			if len(qAndWeight) == 2 && trimOWS(qAndWeight[0]) == qFactorWeightingKey {
+				f, err := strconv.ParseFloat(trimOWS(qAndWeight[1]), 64)
 				if err != nil {
 					if trace {
 						traceLogger.Printf("unable to parse quality in %s, %v", each, err)
 					}
+					valid = false
 				} else {
-					sorted = insertMime(sorted, mime{typeAndQuality[0], f})
+					quality = f
 				}
-			} else {
-				sorted = insertMime(sorted, mime{typeAndQuality[0], 1.0})
+				break
 			}
+		}
+		if valid {
+			sorted = insertMime(sorted, mime{media, quality})
 		}
 	}
 	return
+}
+
+// trimOWS removes optional whitespace (RFC 7230: space and horizontal tab) around a header element.
+func trimOWS(s string) string {
+	return strings.Trim(s, " \t")
 }
